@@ -57,7 +57,9 @@ fn one_program(cx: &mut Ctx, i: u64) {
     // partial inspection: components of tuples and arrays are skipped with this probability, so
     // that a witness value is pruned in the middle (uninspected parts next to inspected ones)
     g.probe_skip_pct = [0, 30, 60][(i % 3) as usize];
-    let inspected: Vec<bool> = ws.iter().map(|_| g.rng.chance(4, 5)).collect();
+    // (the prober's own generator is seeded identically for every program)
+    let inspected: Vec<bool> = ws.iter().map(|_| rng.chance(4, 5)).collect();
+    g.rng = rng.clone();
     for (k, (n, t)) in ws.iter().enumerate() {
         stmts.push(let_(&format!("x{k}"), t.clone(), Expr::Witness(n.clone())));
         if inspected[k] {
@@ -172,7 +174,11 @@ fn one_program(cx: &mut Ctx, i: u64) {
 
     // ---- missing names: legal; must not panic, must stay well-typed
     if nw >= 1 {
-        let drop_k = rng.below(nw);
+        // preferably a witness that the program binds but never inspects: then nothing depends on
+        // what the library puts in its place, and the whole run can be judged
+        let uninspected: Vec<usize> = (0..nw).filter(|k| !inspected[*k]).collect();
+        let drop_k = if !uninspected.is_empty() && rng.chance(2, 3) { *rng.pick(&uninspected) } else { rng.below(nw) };
+        let whole_run = !inspected[drop_k];
         let m: WMap = primary
             .iter()
             .filter(|(n, _)| **n != ws[drop_k].0)
@@ -196,13 +202,38 @@ fn one_program(cx: &mut Ctx, i: u64) {
                     let r = run_reference(cx, &p, &m_ref, false);
                     let rep2 = examine_redeem(&sat, &built.commit.cmr, &cx.env, Some(&mut cx.jets), None);
                     if let (false, Some(trace)) = (matches!(r.verdict, Err(crate::interp::Stop::Refuse(_))), &rep2.trace) {
-                        let cut = r
-                            .events
-                            .iter()
-                            .position(|e| matches!(e, crate::interp::REvent::Witness { name, .. } if *name == ws[drop_k].0))
-                            .unwrap_or(r.events.len());
-                        let n = cut.min(trace.events.len());
-                        if let Err(e) = compare_traces(&p, &r.events[..n], &trace.events[..n], None) {
+                        let cut = if whole_run {
+                            r.events.len()
+                        } else {
+                            r.events
+                                .iter()
+                                .position(|e| matches!(e, crate::interp::REvent::Witness { name, .. } if *name == ws[drop_k].0))
+                                .unwrap_or(r.events.len())
+                        };
+                        // with an uninspected missing witness its own event is the only one not judged
+                        let r_events: Vec<crate::interp::REvent> = r.events.clone();
+                        let mut o_events = trace.events.clone();
+                        if whole_run {
+                            if let Some(j) = r_events.iter().position(|e| matches!(e, crate::interp::REvent::Witness { name, .. } if *name == ws[drop_k].0)) {
+                                if let (Some(crate::interp::REvent::Witness { value, .. }), Some(slot)) = (r_events.get(j), o_events.get_mut(j)) {
+                                    if matches!(slot, crate::tracemachine::Event::Witness { .. }) {
+                                        *slot = crate::tracemachine::Event::Witness { value: value.clone() };
+                                    }
+                                }
+                            }
+                            let finished_ref = r.verdict.is_ok();
+                            let finished_obs = matches!(rep2.exec, Outcome::Ok(Ok(())));
+                            if finished_ref != finished_obs || r_events.len() != o_events.len() {
+                                cx.report.violation(json!({"kind": "missing-names", "what": format!("map without the uninspected `{}`: prescribed finishes = {finished_ref} after {} events, observed finishes = {finished_obs} after {} events", ws[drop_k].0, r_events.len(), o_events.len()),
+                                    "case": case_json(&p, &m, false), "signature": format!("c05-missing-delivery:{key:016x}")}));
+                                return;
+                            }
+                            cx.report.count("map_missing_uninspected_name_whole_run", 1);
+                        }
+                        let r = crate::props::common::RefRun { events: r_events, ..r };
+                        let trace_events = o_events;
+                        let n = cut.min(trace_events.len());
+                        if let Err(e) = compare_traces(&p, &r.events[..n], &trace_events[..n], None) {
                             cx.report.violation(json!({"kind": "missing-names", "what": format!("map without `{}`: the supplied names are not delivered as prescribed: {e}", ws[drop_k].0),
                                 "case": case_json(&p, &m, false), "signature": format!("c05-missing-delivery:{key:016x}")}));
                         } else if n < cut {
